@@ -412,7 +412,9 @@ func checkPESEncode(c *mon.Ctx, stage string, idx int64, r *rand.Rand, flags, ex
 	m.AddElementaryStream(astits.PMTElementaryStream{ElementaryPID: 0x100, StreamType: astits.StreamTypePrivateData})
 	m.SetPCRPID(0x100)
 	var werr error
-	if p, v, st := mon.Guarded(func() { _, werr = m.WriteData(&astits.MuxerData{PID: 0x100, PES: &astits.PESData{Header: h, Data: append([]byte{}, data...)}}) }); p {
+	if p, v, st := mon.Guarded(func() {
+		_, werr = m.WriteData(&astits.MuxerData{PID: 0x100, PES: &astits.PESData{Header: h, Data: append([]byte{}, data...)}})
+	}); p {
 		c.Violate("C12/encode/panic", stage, idx, fmt.Sprintf("%v\n%s", v, st), nil)
 		return
 	}
